@@ -4,7 +4,7 @@
    (rules::valid_tag, valid_entity, valid_boolean_property, valid_property) and the three flags;
    the encoding validators enc_valid / enc_vof (cppcms::encoding::valid / validate_or_filter) are
    universally quantified functions constrained only by the stated premises. *)
-From CppcmsV Require Import Base.Tac Base.Sweep C04.Defs C04.DefsX C04.DefsU C04.ProofsX C04.ProofsU C04.Proofs1 C04.Proofs2 C04.Proofs3 C04.Proofs4 C04.Proofs5 C04.Proofs6 C04.Proofs7 C04.Proofs8 C04.Proofs9 C04.Proofs10 C04.Proofs11 C04.Proofs12 C04.Link Base.CSem gen.Gen_xss gen.Gen_xss2 gen.Gen_uri gen.Gen_cstr.
+From CppcmsV Require Import Base.Tac Base.Sweep C04.Defs C04.DefsX C04.DefsU C04.ProofsX C04.ProofsU C04.ProofsU2 C04.ProofsU3 C04.ProofsI C04.Proofs1 C04.Proofs2 C04.Proofs3 C04.Proofs4 C04.Proofs5 C04.Proofs6 C04.Proofs7 C04.Proofs8 C04.Proofs9 C04.Proofs10 C04.Proofs11 C04.Proofs12 C04.Link Base.CSem gen.Gen_xss gen.Gen_xss2 gen.Gen_uri gen.Gen_cstr.
 Local Open Scope N_scope.
 
 (* ---- 1. verdicts: both entry points agree, valid input is returned unchanged, validation implies
@@ -257,54 +257,166 @@ Theorem converted_filter_validates :
 Proof. exact filter_validates_x. Qed.
 Print Assumptions converted_filter_validates.
 
+(* ... and for every rule set the public API can build the side conditions on the rule set are discharged *)
+Theorem concrete_converted_filter_validates :
+  forall r vfun has_enc ascii_compat enc_valid enc_vof to_utf_stop to_utf_skip from_utf_stop m x,
+  enc_agree enc_valid enc_vof -> enc_vof_valid enc_valid enc_vof ->
+  (has_enc = true -> enc_ascii_compatible enc_valid) -> conv_roundtrip enc_valid to_utf_stop from_utf_stop ->
+  c_validate_x r vfun has_enc ascii_compat enc_valid to_utf_stop
+    (filter_x (c_xhtml r) (c_comments r) (c_numeric r) (c_tag_kind r) (c_entity_ok r) (c_bool_ok r) (c_val_ok r vfun)
+              has_enc ascii_compat enc_vof to_utf_stop to_utf_skip from_utf_stop m x) = true.
+Proof. exact c_filter_validates_x. Qed.
+Print Assumptions concrete_converted_filter_validates.
+
 (* ---- 4d. URI validators (class uri_parser and uri_validator_functor are modelled in DefsU.v; sre = the scheme
         regular expression, an arbitrary function).  visible_scheme v = the scheme a browser reads:
-        ALPHA *( ALPHA / DIGIT / + - . ) followed by a colon at the start of the value. ---- *)
-Theorem uri_value_alphabet : forall strict_full k sre v,
-  uri_validate strict_full k sre v = true -> forallb uchar v = true.
+        ALPHA *( ALPHA / DIGIT / + - . ) followed by a colon at the start of the value;
+        scheme_form sc = sc is ALPHA *( ALPHA / DIGIT / + - . ). ---- *)
+Theorem uri_value_alphabet : forall k sre v,
+  uri_validate k sre v = true -> forallb uchar v = true.
 Proof. exact uri_validate_alphabet. Qed.
 Print Assumptions uri_value_alphabet.
 
-Theorem uri_scheme_whitelisted : forall strict_full sre v sc,
-  uri_validate strict_full UBoth sre v = true -> visible_scheme v = Some sc -> sre sc = true.
+Theorem uri_scheme_whitelisted : forall sre v sc,
+  uri_validate UBoth sre v = true -> visible_scheme v = Some sc -> sre sc = true.
 Proof. exact uri_both_scheme_checked. Qed.
 Print Assumptions uri_scheme_whitelisted.
 
-Theorem absolute_uri_scheme_whitelisted : forall strict_full sre v sc,
-  uri_validate strict_full UFull sre v = true -> visible_scheme v = Some sc -> sre sc = true.
-Proof. exact uri_full_scheme_checked. Qed.
-Print Assumptions absolute_uri_scheme_whitelisted.
-
-Theorem relative_uri_has_no_scheme : forall strict_full sre v,
-  uri_validate strict_full URelative sre v = true -> visible_scheme v = None.
+Theorem relative_uri_has_no_scheme : forall sre v,
+  uri_validate URelative sre v = true -> visible_scheme v = None.
 Proof. exact uri_relative_no_scheme. Qed.
 Print Assumptions relative_uri_has_no_scheme.
 
-(* FINDING (absolute-uri-attribute-without-scheme).  The statement
-     forall sre v, uri_validate false UFull sre v = true -> exists sc, visible_scheme v = Some sc /\ sre sc = true
-   ("the absolute-only validator accepts only values with an allowed scheme") is refuted by the faithful model of
-   the code as it is: "http/evil" with the scheme expression (http|https).  Replayed on the implementation
-   (docs/C04.md).  With the repaired parse_full() (docs/C04_fix_1.diff, strict_full = true) the statement holds. *)
-Theorem absolute_uri_requires_scheme_refuted :
-  exists sre v, uri_validate false UFull sre v = true /\ visible_scheme v = None.
-Proof. exists ex_http_https, [104;116;116;112;47;101;118;105;108]. exact uri_full_accepts_relative. Qed.
-Print Assumptions absolute_uri_requires_scheme_refuted.
+(* the absolute-only validator (rules::uri_validator(scheme, true)): a value is accepted only if it is
+   scheme ":" rest, where the scheme is the one a browser reads, the scheme expression matches it, and rest is
+   hier-part [ "?" query ] [ "#" fragment ] to the last byte *)
+Theorem absolute_uri_requires_scheme : forall sre v,
+  uri_validate UFull sre v = true ->
+  exists sc rest, v = sc ++ 58 :: rest /\ scheme_form sc /\ sre sc = true /\ visible_scheme v = Some sc /\
+                  opt_fragment (opt_query (hier_part rest)) = [].
+Proof. exact uri_full_has_scheme. Qed.
+Print Assumptions absolute_uri_requires_scheme.
 
-Theorem absolute_uri_requires_scheme_after_fix : forall sre v,
-  uri_validate true UFull sre v = true -> exists sc, visible_scheme v = Some sc /\ sre sc = true.
-Proof. exact uri_full_strict_has_scheme. Qed.
-Print Assumptions absolute_uri_requires_scheme_after_fix.
+(* ... and this description is exact *)
+Theorem absolute_uri_validator_exact : forall sre v,
+  uri_validate UFull sre v = true <->
+  exists sc rest, v = sc ++ 58 :: rest /\ scheme_form sc /\ sre sc = true /\
+                  opt_fragment (opt_query (hier_part rest)) = [].
+Proof. exact uri_full_exact. Qed.
+Print Assumptions absolute_uri_validator_exact.
+
+Theorem absolute_uri_scheme_whitelisted : forall sre v sc,
+  uri_validate UFull sre v = true -> visible_scheme v = Some sc -> sre sc = true.
+Proof. exact uri_full_scheme_checked. Qed.
+Print Assumptions absolute_uri_scheme_whitelisted.
+
+(* the other two validators, exactly: the relative validator accepts the values without a visible scheme that relative-ref
+   consumes to the last byte; the validator for both accepts what the absolute-only or the relative validator accepts *)
+Theorem relative_uri_validator_exact : forall sre v,
+  uri_validate URelative sre v = true <-> visible_scheme v = None /\ relative_ref v = [].
+Proof. exact uri_relative_exact. Qed.
+Print Assumptions relative_uri_validator_exact.
+
+Theorem uri_validator_is_absolute_or_relative : forall sre v,
+  uri_validate UBoth sre v = uri_validate UFull sre v || uri_validate URelative sre v.
+Proof. exact uri_both_is_full_or_relative. Qed.
+Print Assumptions uri_validator_is_absolute_or_relative.
 
 (* through the rule set: an attribute registered with a URI validator *)
 Theorem uri_attribute_scheme_whitelisted :
-  forall r vfun k strict_full sre tag pn v sc,
-  find_prop r tag pn = Some (VFun k) -> vfun k = uri_validate strict_full UBoth sre ->
+  forall r vfun k sre tag pn v sc,
+  find_prop r tag pn = Some (VFun k) -> vfun k = uri_validate UBoth sre ->
   c_val_ok r vfun tag pn v = true -> visible_scheme v = Some sc -> sre sc = true.
-Proof.
-  intros r vfun k sf sre tag pn v sc Hf Hk Hv Hs. unfold c_val_ok in Hv. rewrite Hf, Hk in Hv.
-  exact (uri_both_scheme_checked sf sre v sc Hv Hs).
-Qed.
+Proof. exact uri_both_attribute. Qed.
 Print Assumptions uri_attribute_scheme_whitelisted.
+
+Theorem absolute_uri_attribute_requires_scheme :
+  forall r vfun k sre tag pn v,
+  find_prop r tag pn = Some (VFun k) -> vfun k = uri_validate UFull sre ->
+  c_val_ok r vfun tag pn v = true ->
+  exists sc rest, v = sc ++ 58 :: rest /\ scheme_form sc /\ sre sc = true /\ visible_scheme v = Some sc /\
+                  opt_fragment (opt_query (hier_part rest)) = [].
+Proof. exact uri_full_attribute. Qed.
+Print Assumptions absolute_uri_attribute_requires_scheme.
+
+Theorem relative_uri_attribute_has_no_scheme :
+  forall r vfun k sre tag pn v,
+  find_prop r tag pn = Some (VFun k) -> vfun k = uri_validate URelative sre ->
+  c_val_ok r vfun tag pn v = true -> visible_scheme v = None.
+Proof. exact uri_relative_attribute. Qed.
+Print Assumptions relative_uri_attribute_has_no_scheme.
+
+(* a browser decodes the character references in an attribute value before it reads the value as a URI.  Inside a value
+   validate_property_value permits & only as the start of the 8 spellings of value_entities (attribute_value_grammar);
+   decode_value replaces them by the characters they stand for (& < > dquote apostrophe; the decoder recognises a spelling
+   exactly where value_ok does).  The scheme of the decoded value is the scheme of the raw value, for every value: *)
+Theorem uri_scheme_survives_entity_decoding : forall v, visible_scheme (decode_value v) = visible_scheme v.
+Proof. exact decode_scheme. Qed.
+Print Assumptions uri_scheme_survives_entity_decoding.
+
+Theorem decoder_follows_value_grammar : forall s,
+  match first_match_ch value_entities ent_chars s with Some (n, _) => Some n | None => None end = first_match value_entities s.
+Proof. exact first_match_ch_agrees. Qed.
+Print Assumptions decoder_follows_value_grammar.
+
+(* so the scheme policy of the three validators holds for the value as the browser sees it: a visible scheme is never
+   accepted by the relative validator and only if the scheme expression matches it by the other two; a value without
+   a visible scheme is never accepted by the absolute-only validator *)
+Theorem decoded_uri_scheme_policy : forall k sre v,
+  uri_validate k sre v = true ->
+  match visible_scheme (decode_value v) with
+  | Some sc => k <> URelative /\ sre sc = true
+  | None => k <> UFull
+  end.
+Proof. exact decoded_scheme_policy. Qed.
+Print Assumptions decoded_uri_scheme_policy.
+
+(* the token structure of an accepted value (any of the three validators): a concatenation of URI tokens (utoks) -
+   one URI character other than & and % | % HEXDIG HEXDIG | &amp; | &apos; - so & occurs only as the start of
+   &amp; / &apos; and % only as the start of a percent-encoded byte; and the decoded value (what the browser reads as the
+   URI) consists of URI characters only: no blank, control character, quote, angle bracket, backslash *)
+Theorem uri_value_is_token_sequence : forall k sre v, uri_validate k sre v = true -> utoks v.
+Proof. exact uri_value_tokens. Qed.
+Print Assumptions uri_value_is_token_sequence.
+
+Theorem decoded_uri_value_alphabet : forall k sre v,
+  uri_validate k sre v = true -> forallb uchar (decode_value v) = true.
+Proof. exact uri_decoded_alphabet. Qed.
+Print Assumptions decoded_uri_value_alphabet.
+
+(* ---- 4e. the other attribute kinds of API-built rule sets: integer (rules::add_integer_property) = optional minus sign and
+        one or more digits; boolean (rules::add_boolean_property) = name="name" byte for byte in xhtml, no value in html ---- *)
+Theorem integer_attribute_grammar : forall v,
+  int_ok v = true <->
+  exists sign ds, v = sign ++ ds /\ (sign = [] \/ sign = [45]) /\ ds <> [] /\ forallb is_digit ds = true.
+Proof. exact int_ok_spec. Qed.
+Print Assumptions integer_attribute_grammar.
+
+Theorem integer_attribute_checked : forall r vfun tag pn v,
+  find_prop r tag pn = Some VInt -> c_val_ok r vfun tag pn v = true ->
+  exists sign ds, v = sign ++ ds /\ (sign = [] \/ sign = [45]) /\ ds <> [] /\ forallb is_digit ds = true.
+Proof. exact int_attribute. Qed.
+Print Assumptions integer_attribute_checked.
+
+Theorem boolean_attribute_checked : forall r vfun tag pn,
+  (forall v, find_prop r tag pn = Some VBool -> c_val_ok r vfun tag pn v = true -> c_xhtml r = true /\ v = pn) /\
+  (c_bool_ok r tag pn = true -> c_xhtml r = false /\ find_prop r tag pn = Some VBool).
+Proof. exact (fun r vfun tag pn => conj (bool_attribute_xhtml r vfun tag pn) (bool_attribute_html r tag pn)). Qed.
+Print Assumptions boolean_attribute_checked.
+
+(* repeated registrations (std::map semantics of rules::add_tag / add_*_property, modelled by find_tag / tag_props / find_prop):
+   the last add_tag under a name decides the kind, the last registration of an attribute decides its validator, and
+   add_*_property alone never makes a tag valid *)
+Theorem registration_last_wins : forall x c nu e tags n k attrs pn vk,
+  (k <> TInvalid -> c_tag_kind (mkR x c nu e (tags ++ [((n, k), attrs)])) n = k) /\
+  find_prop (mkR x c nu e (tags ++ [((n, k), attrs ++ [(pn, vk)])])) n pn = Some vk /\
+  c_tag_kind (mkR x c nu e (tags ++ [((n, TInvalid), attrs)])) n = c_tag_kind (mkR x c nu e tags) n.
+Proof.
+  exact (fun x c nu e tags n k attrs pn vk =>
+    conj (last_add_tag_wins x c nu e tags n k attrs)
+      (conj (last_add_property_wins x c nu e tags n k attrs pn vk) (properties_only_is_invalid x c nu e tags n attrs))).
+Qed.
+Print Assumptions registration_last_wins.
 
 (* ---- 5. tie to the source: leaf functions regenerated from src/xss.cpp on every run are the
         leaf functions of the model ---- *)
@@ -327,6 +439,10 @@ Theorem src_value_entities : map (map Z.to_N) g_xss_value_entities = value_entit
 Proof. exact link_value_entities. Qed.
 Print Assumptions src_value_entities.
 
+Theorem src_integer_test : forall b, b < 256 -> g_xss_int_reject (sch b) = negb (is_digit b).
+Proof. exact link_int_reject. Qed.
+Print Assumptions src_integer_test.
+
 Theorem src_uri_leafs : forall b, b < 256 ->
   g_uri_isdigit (sch b) = u_digit b /\ g_uri_isalpha (sch b) = u_alpha b /\ g_uri_ishex (sch b) = u_hex b /\
   g_uri_unreserved (sch b) = negb (Nat.eqb (unreserved_len [b]) 0) /\
@@ -339,6 +455,32 @@ Print Assumptions src_uri_leafs.
 Theorem src_uri_subdelim_words : map (map Z.to_N) g_uri_subdelim_words = [amp_s; apos_s].
 Proof. exact link_uri_subdelim_words. Qed.
 Print Assumptions src_uri_subdelim_words.
+
+(* class uri_parser: the character test of the loop of scheme(); the methods and loop conditions that are written as
+   alternatives of token matchers (pchar, query, segment, segment_nz_nc, reg_name, userinfo), read from the AST as lists of
+   operands (rule name) and interpreted with the token matchers of the model (alts), are the model's composite matchers;
+   the entry points parse / parse_relative / parse_full, host and fragment are written as the model assumes - in particular
+   parse_full() is uri() && begin_ == end_ *)
+Theorem src_uri_scheme_chars : forall b, b < 256 -> g_uri_schemech (sch b) = schemech b.
+Proof. exact link_uri_schemech. Qed.
+Print Assumptions src_uri_scheme_chars.
+Theorem src_uri_token_alternatives : forall s,
+  alts_pchar s = pchar_len s /\ alts_query s = qchar_len s /\ alts_segment s = pchar_len s /\
+  alts_segment_nz_nc s = nc_len s /\ alts_reg_name s = reg_len s /\ alts_userinfo s = ui_len s.
+Proof. exact link_uri_alternatives. Qed.
+Print Assumptions src_uri_token_alternatives.
+(* uri_entry_points_as_modelled (Link.v): rule parse = && uri_reference() begin_==end_, rule parse_relative = && relative_ref()
+   begin_==end_, rule parse_full = && uri() begin_==end_, rule host = || ipv4addr() reg_name(), rule fragment = query() *)
+Theorem src_uri_entry_points : uri_entry_points_as_modelled.
+Proof. exact link_uri_entry_points. Qed.
+Print Assumptions src_uri_entry_points.
+
+(* uri_control_as_modelled (Link.v): the conditions of the if / while statements and the operands of the return statements of
+   uri, relative_ref, relative_part, hier_part, authority, path_absolute, path_rootless, path_noscheme, path_abempty, segment_nz,
+   in source order, are the ones the hand model of these rules was written from *)
+Theorem src_uri_control : uri_control_as_modelled.
+Proof. exact link_uri_control. Qed.
+Print Assumptions src_uri_control.
 
 Theorem src_case_insensitive_compare : forall a b, a < 256 -> b < 256 ->
   (g_cstr_ilt (sch a) (sch b) = false /\ g_cstr_ilt (sch b) (sch a) = false) <-> to_lower a = to_lower b.
@@ -408,9 +550,51 @@ Example kind_compat_is_needed :
 Proof. vm_compute. split; reflexivity. Qed.
 
 Example uri_nonvacuous :
-  uri_validate false UBoth ex_http_https [104;116;116;112;58;47;47;104;47;112;63;113;61;49] = true /\   (* http://h/p?q=1 *)
+  uri_validate UBoth ex_http_https [104;116;116;112;58;47;47;104;47;112;63;113;61;49] = true /\   (* http://h/p?q=1 *)
   visible_scheme [104;116;116;112;58;47;47;104;47;112;63;113;61;49] = Some [104;116;116;112] /\
-  uri_validate false UBoth ex_http_https [106;97;118;97;115;99;114;105;112;116;58;97;108;101;114;116;40;49;41] = false /\  (* javascript:alert(1) *)
-  uri_validate false URelative ex_http_https [47;112;47;113] = true /\                                            (* /p/q *)
-  uri_validate false UBoth ex_http_https [104;116;116;112;58;47;47;104;47;97;32;98] = false.                       (* http://h/a b *)
+  uri_validate UBoth ex_http_https [106;97;118;97;115;99;114;105;112;116;58;97;108;101;114;116;40;49;41] = false /\  (* javascript:alert(1) *)
+  uri_validate URelative ex_http_https [47;112;47;113] = true /\                                            (* /p/q *)
+  uri_validate UBoth ex_http_https [104;116;116;112;58;47;47;104;47;97;32;98] = false /\                     (* http://h/a b *)
+  uri_validate UFull ex_http_https [104;116;116;112;115;58;47;47;104;47;112;63;113;35;102] = true /\         (* https://h/p?q#f *)
+  uri_validate UFull ex_http_https [102;116;112;58;47;47;104] = false /\                                    (* ftp://h *)
+  uri_validate UFull ex_http_https [47;112] = false.                                                        (* /p *)
 Proof. vm_compute. repeat split. Qed.
+
+(* regression of the defect repaired by /repo 92a72e6 (was finding absolute-uri-attribute-without-scheme): with
+   add_tag("img", stand_alone), add_property("img", "src", uri_validator("(http|https)", true)) the document
+   <img src="http/evil"/> validated.  It is rejected now (the filter removes / escapes the tag), an absolute URI in
+   the same place validates; uri_validate_full_old is the functor as it was. *)
+Definition ex_img_rules : crules :=
+  mkR true true true [] [ ([105;109;103], TAlone, [([115;114;99], VFun 0)]) ].
+Definition ex_img_vfun (k : N) : list N -> bool := uri_validate UFull ex_http_https.
+Definition ex_img_evil : list N :=     (* <img src="http/evil"/> *)
+  [60;105;109;103;32;115;114;99;61;34;104;116;116;112;47;101;118;105;108;34;47;62].
+Definition ex_img_good : list N :=     (* <img src="http://h/"/> *)
+  [60;105;109;103;32;115;114;99;61;34;104;116;116;112;58;47;47;104;47;34;47;62].
+Example absolute_uri_regression :
+  uri_validate UFull ex_http_https [104;116;116;112;47;101;118;105;108] = false /\
+  uri_validate_full_old ex_http_https [104;116;116;112;47;101;118;105;108] = true /\
+  visible_scheme [104;116;116;112;47;101;118;105;108] = None /\
+  c_validate ex_img_rules ex_img_vfun false (fun _ => true) ex_img_evil = false /\
+  c_validate ex_img_rules (fun _ => uri_validate_full_old ex_http_https) false (fun _ => true) ex_img_evil = true /\
+  c_validate_and_filter ex_img_rules ex_img_vfun false (fun _ => None) RemoveInvalid ex_img_evil = (false, []) /\
+  c_validate ex_img_rules ex_img_vfun false (fun _ => true) ex_img_good = true.
+Proof. vm_compute. repeat split. Qed.
+
+Example entity_decoding_nonvacuous :
+  decode_value [106;97;118;97;38;35;120;50;55;59;58;120] = [106;97;118;97;39;58;120] /\      (* java&#x27;:x -> java':x *)
+  visible_scheme (decode_value [106;97;118;97;38;35;120;50;55;59;58;120]) = None /\
+  decode_value [104;116;116;112;58;47;47;104;47;63;97;38;97;109;112;59;98] = [104;116;116;112;58;47;47;104;47;63;97;38;98] /\  (* http://h/?a&amp;b *)
+  visible_scheme (decode_value [104;116;116;112;58;47;47;104;47;63;97;38;97;109;112;59;98]) = Some [104;116;116;112] /\
+  uri_validate UFull ex_http_https [104;116;116;112;58;47;47;104;47;63;97;38;97;109;112;59;98] = true.
+Proof. vm_compute. repeat split. Qed.
+
+Example attribute_kinds_nonvacuous :
+  int_ok [45;49;50] = true /\ int_ok [49;45] = false /\ int_ok [45] = false /\ int_ok [] = false /\ int_ok [43;49] = false.
+Proof. vm_compute. repeat split. Qed.
+
+(* the same tag registered twice: a paired, then a any_tag with href relative only *)
+Example registration_nonvacuous :
+  let r := mkR true false false [] [ ([97], TPair, [([104;114;101;102], VFun 0)]); ([97], TAny, [([104;114;101;102], VFun 1)]) ] in
+  c_tag_kind r [97] = TAny /\ find_prop r [97] [104;114;101;102] = Some (VFun 1).
+Proof. vm_compute. split; reflexivity. Qed.
